@@ -38,12 +38,25 @@ def gen_case(rng: random.Random, tier: str) -> dict:
     nums = rng.sample(gen.NUM_VARS, rng.randint(1, 3))
     frame = gen.rand_frame(rng, n, cats=cats, nums=nums)
     terms, factors = gen.rand_terms(rng, frame, cats=cats, nums=nums)
+    ctx = None
+    if rng.random() < 0.25:  # factors whose values come (partly) from the evaluation context
+        ctx = {"cv": [round(rng.gauss(0, 1), 5) for _ in range(n)], "k": rng.choice([2.0, -0.5, 3.0])}
+        v = nums[0]
+        extra = rng.choice([{"text": "cv", "label": "cv", "kind": "num"}, {"text": f"I({v}*k)", "label": f"I({v} * k)", "kind": "num"},
+                            {"text": f"{{cv + {v}}}", "label": f"cv + {v}", "kind": "num"}])
+        factors["ctx0"] = extra
+        t = rng.choice(terms)
+        if "ctx0" not in t["factors"]:
+            if rng.random() < 0.5 and len(t["factors"]) < 4:
+                t["factors"].append("ctx0")
+            else:
+                terms.append({"scale": None, "scale_pos": 0, "factors": ["ctx0"]})
     icpt = rng.random() < 0.7
     mat = rng.choice(["pandas", "pandas", "narwhals"])
     return {
         "frame": frame, "terms": terms, "factors": factors, "icpt": icpt,
         "formula": gen.formula_text(terms, factors, icpt, rng),
-        "efr": rng.random() < 0.5, "output": rng.choice(["pandas", "numpy", "sparse"]), "mat": mat,
+        "efr": rng.random() < 0.5, "output": rng.choice(["pandas", "numpy", "sparse"]), "mat": mat, "ctx": ctx,
     }
 
 
@@ -53,7 +66,7 @@ def expected_subcolumn(part: str, case: dict, cache: dict) -> tuple[np.ndarray, 
     for key, fa in case["factors"].items():
         if fa["kind"] == "num" and part == fa["label"]:
             if key not in cache:
-                cache[key] = gen.eval_num_label(fa["label"], frame)
+                cache[key] = gen.eval_num_label(fa["label"], frame, case.get("ctx"))
             return cache[key], key
         if fa["kind"] == "multi" and part.startswith(fa["label"] + "[") and part.endswith("]") and part[len(fa["label"]) + 1:-1] in fa["fields"]:
             k = int(part[len(fa["label"]) + 1:-1])
@@ -82,8 +95,10 @@ def judge(case: dict) -> Outcome:
     n = nrows(case["frame"])
     try:
         with quiet():
+            # context vectors are numpy arrays: a plain Python list as factor value is outside this property ("data columns")
+            ctx = {k: (np.array(v) if isinstance(v, list) else v) for k, v in (case.get("ctx") or {}).items()}
             mm = model_matrix(case["formula"], df, ensure_full_rank=case["efr"], output=case["output"],
-                              materializer=case["mat"], context={})
+                              materializer=case["mat"], context=ctx)
     except Exception as e:
         out.fail("c02.materialization_raised", f"{case['formula']!r}: {type(e).__name__}: {str(e)[:200]}")
         return out
